@@ -28,7 +28,8 @@ def _compile(pattern: str) -> ast.AST:
     def repl(m):
         return ("__ex_" if m.group(0).startswith("$$") else "__mv_") + m.group(1) + "__"
     src = _MV.sub(repl, pattern)
-    tree = ast.parse(src)
+    from .normal import normalise
+    tree = normalise(ast.parse(src))
     node = tree.body[0]
     if isinstance(node, ast.Expr) and len(tree.body) == 1:
         node = node.value
@@ -77,6 +78,16 @@ def _match(p, n, b: Dict[str, str]) -> bool:
             b[key] = n.arg
             return True
         return p.arg == n.arg
+    if isinstance(p, ast.Compare) and len(p.ops) == 1 and isinstance(p.ops[0], (ast.Eq, ast.NotEq)) \
+            and len(n.ops) == 1 and type(n.ops[0]) is type(p.ops[0]):
+        # == / != are matched in either orientation
+        for a_, c_ in ((n.left, n.comparators[0]), (n.comparators[0], n.left)):
+            b2 = dict(b)
+            if _match(p.left, a_, b2) and _match(p.comparators[0], c_, b2):
+                b.clear()
+                b.update(b2)
+                return True
+        return False
     if isinstance(p, ast.Call):
         if not _match(p.func, n.func, b):
             return False
